@@ -176,6 +176,95 @@ theorem c20_cidrv6_pattern_nozone :
     ∀ s, avoids [37] s = true → cidrv6QuadDefect.run s = false → accepts Gen.pat_cidrv6 s = cidrv6.run s := fun s hs he =>
   (bisim_sound_R _ _ _ _ Gen.cert_cidrv6_dot_ok s hs he).trans (cidrv6_octet_quot s).symm
 
+/-! ## strings without a '.' lie outside the excluded region -/
+
+/-- the excluded region contains only strings with a '.': its automaton enters the dotted-quad phase on a '.' only -/
+theorem quadDefectStep_ph (pl : Bool) {q q' : V6ESt} {c : Nat} (hq : q.ph ≠ 5 ∧ q.ph ≠ 6) (hc : c ≠ 46)
+    (h : quadDefectStep pl q c = some q') : q'.ph ≠ 5 ∧ q'.ph ≠ 6 := by
+  obtain ⟨h5, h6⟩ := hq
+  simp only [quadDefectStep, if_neg h6, if_neg h5, if_neg hc, V6ESt.startGroup] at h
+  repeat' split at h
+  all_goals first | (cases h; done) | (cases h; simp only; omega) | (cases h; simp_all)
+
+theorem ipv6QuadDefect_nodot : ∀ s, avoids [46] s = true → ipv6QuadDefect.run s = false := by
+  have key : ∀ (s : List Nat) (o : Option V6ESt), avoids [46] s = true → (∀ q, o = some q → q.ph ≠ 5 ∧ q.ph ≠ 6) →
+      ipv6QuadDefect.accO (s.foldl ipv6QuadDefect.gstep o) = false := by
+    intro s
+    induction s with
+    | nil =>
+      intro o _ ho
+      cases o with
+      | none => rfl
+      | some q =>
+        have := ho q rfl
+        show (decide (q.ph = 5) && decide (q.k = 3) && decide (q.n ≥ 1) && q.lz) = false
+        simp [this.1]
+    | cons c s ih =>
+      intro o hs ho
+      simp only [avoids, List.all_cons, Bool.and_eq_true, Bool.not_eq_true'] at hs
+      have hc : c ≠ 46 := by intro e; subst e; simp [List.elem] at hs
+      show ipv6QuadDefect.accO (s.foldl ipv6QuadDefect.gstep (ipv6QuadDefect.gstep o c)) = false
+      refine ih _ (by simpa [avoids] using hs.2) ?_
+      intro q' hq'
+      cases o with
+      | none => cases hq'
+      | some q =>
+        have hstep : (if ipv6Support.elem c then quadDefectStep false q c else none) = some q' := hq'
+        split at hstep
+        · exact quadDefectStep_ph false (ho q rfl) hc hstep
+        · cases hstep
+  intro s hs
+  exact key s (some V6ESt.init) hs (fun q hq => by cases hq; decide)
+
+theorem cidrv6QuadDefect_nodot : ∀ s, avoids [46] s = true → cidrv6QuadDefect.run s = false := by
+  have key : ∀ (s : List Nat) (o : Option V6ESt), avoids [46] s = true → (∀ q, o = some q → q.ph ≠ 5 ∧ q.ph ≠ 6) →
+      cidrv6QuadDefect.accO (s.foldl cidrv6QuadDefect.gstep o) = false := by
+    intro s
+    induction s with
+    | nil =>
+      intro o _ ho
+      cases o with
+      | none => rfl
+      | some q =>
+        have := ho q rfl
+        show (decide (q.ph = 6) && decide (q.n ≥ 1) && q.lz) = false
+        simp [this.2]
+    | cons c s ih =>
+      intro o hs ho
+      simp only [avoids, List.all_cons, Bool.and_eq_true, Bool.not_eq_true'] at hs
+      have hc : c ≠ 46 := by intro e; subst e; simp [List.elem] at hs
+      show cidrv6QuadDefect.accO (s.foldl cidrv6QuadDefect.gstep (cidrv6QuadDefect.gstep o c)) = false
+      refine ih _ (by simpa [avoids] using hs.2) ?_
+      intro q' hq'
+      cases o with
+      | none => cases hq'
+      | some q =>
+        have hstep : (if (47 :: ipv6Support).elem c then quadDefectStep true q c else none) = some q' := hq'
+        split at hstep
+        · exact quadDefectStep_ph true (ho q rfl) hc hstep
+        · cases hstep
+  intro s hs
+  exact key s (some V6ESt.init) hs (fun q hq => by cases hq; decide)
+
+theorem avoids_pct {s : List Nat} (h : avoids [46, 37] s = true) : avoids [37] s = true := by
+  induction s with
+  | nil => rfl
+  | cons c s ih =>
+    simp only [avoids, List.all_cons, Bool.and_eq_true] at h ⊢
+    refine ⟨?_, by simpa [avoids] using ih (by simpa [avoids] using h.2)⟩
+    have h1 := h.1
+    simp only [List.elem, Bool.not_eq_true'] at h1 ⊢
+    cases hc : (c == 37)
+    · rfl
+    · cases hd : (c == 46) <;> rw [hd] at h1 <;> simp [hc] at h1
+
+/-- on every string without '.' and '%' the exported patterns accept exactly the RFC 4291 addresses / prefixes
+    (corollaries: the excluded region contains only strings with a '.') -/
+theorem c20_ipv6_pattern_partial : ∀ s, avoids [46, 37] s = true → accepts Gen.pat_ipv6 s = ipv6.run s := fun s hs =>
+  c20_ipv6_pattern_nozone s (avoids_pct hs) (ipv6QuadDefect_nodot s (avoids_dot hs))
+theorem c20_cidrv6_pattern_partial : ∀ s, avoids [46, 37] s = true → accepts Gen.pat_cidrv6 s = cidrv6.run s := fun s hs =>
+  c20_cidrv6_pattern_nozone s (avoids_pct hs) (cidrv6QuadDefect_nodot s (avoids_dot hs))
+
 /-! ## all strings: a '%' is never part of an address -/
 
 theorem foldl_gstep_none (S : Spec) : ∀ s : List Nat, s.foldl S.gstep none = none
